@@ -403,8 +403,8 @@ func (g *genState) genOp() Op {
 	}
 
 	// an occasional field the verb has no use for
-	if op.Form == "signed" && pct(t, "extra", 5) {
-		switch uni(t, "which", 4) {
+	if op.Form == "signed" && pct(t, "extra", 12) {
+		switch uni(t, "which", 8) {
 		case 0:
 			if op.P.Cnt == nil {
 				op.P.Cnt = up(3)
@@ -417,9 +417,22 @@ func (g *genState) genOp() Op {
 			if op.P.Cap == nil && op.Mod != "cs" {
 				op.P.Cap = up(5)
 			}
-		default:
+		case 3:
 			if op.P.Mtu == nil && op.Mod != "faces" {
 				op.P.Mtu = up(1200)
+			}
+		case 4, 5:
+			// a Strategy where none is expected (the only nested structure among the parameters)
+			if op.P.Strat == nil && op.Mod != "strategy-choice" {
+				op.P.Strat = sp(pick(t, "xstrat", goodStrategies))
+			}
+		case 6:
+			if op.P.Name == nil && (op.Mod == "faces" || op.Mod == "cs") {
+				op.P.Name = sp(pick(t, "xname", ribNames))
+			}
+		default:
+			if op.P.Uri == nil && !(op.Mod == "faces" && op.Verb == "create") {
+				op.P.Uri = sp("udp4://10.0.0.9:6363")
 			}
 		}
 	}
